@@ -69,6 +69,18 @@ func vFieldValue() interface{} {
 	return true // rendered through InterfaceMarshalFunc
 }
 
+// values that are neither strings nor numbers are rendered as their compact JSON, produced by
+// InterfaceMarshalFunc: here a one-element array holding one symbolic printable character
+var vOtherByte byte
+
+func vOtherJSON() []byte { return []byte{'[', '"', vOtherByte, '"', ']'} }
+
+func vSetOther() {
+	vOtherByte = zzverif.Byte()
+	zzverif.Assume(vOtherByte >= 0x20 && vOtherByte < 0x7f && vOtherByte != '"' && vOtherByte != '\\')
+	InterfaceMarshalFunc = func(v interface{}) ([]byte, error) { return vOtherJSON(), nil }
+}
+
 func vRenderRef(name string, v interface{}) string {
 	isErr := name == ErrorFieldName
 	var val string
@@ -78,7 +90,7 @@ func vRenderRef(name string, v interface{}) string {
 	case json.Number:
 		val = vFmtValue(x)
 	default:
-		val = vFmtValue([]byte("true"))
+		val = vFmtValue(vOtherJSON())
 	}
 	if isErr {
 		return "!" + name + "=" + "E" + val
@@ -87,7 +99,7 @@ func vRenderRef(name string, v interface{}) string {
 }
 
 func VH_C16_fields_default_order() {
-	InterfaceMarshalFunc = func(v interface{}) ([]byte, error) { return []byte("true"), nil }
+	vSetOther()
 	evt := map[string]interface{}{}
 	n := zzverif.Choice(zzverif.Param("fields", 3) + 1)
 	for i := 0; i < n; i++ {
@@ -149,7 +161,7 @@ func VH_C16_fields_default_order() {
 }
 
 func VH_C16_fields_order() {
-	InterfaceMarshalFunc = func(v interface{}) ([]byte, error) { return []byte("true"), nil }
+	vSetOther()
 	a, b, c := "f"+vLetter(), "f"+vLetter(), "g"+vLetter()
 	zzverif.Assume(a != b)
 	evt := map[string]interface{}{a: "v", b: json.Number("7"), c: "v"}
@@ -272,4 +284,151 @@ func VH_C16_parts() {
 	}
 	zzverif.Assert(zzverif.EqualBytes(buf.Bytes(), []byte(want)), "console parts: renderings joined by single spaces, empty renderings add none")
 	zzverif.Reach("C16/parts")
+}
+
+// ---- ConsoleWriter.Write as a whole: decoding is an environment stub (zzverif.DecodesTo), the
+// rest of Write (pooled buffer, parts, fields, extra, newline, Out) is the real code ----
+
+// vEventBytes: natively the JSON text of the event (what the logger would have produced); under
+// gosym only its length matters (the decoder is a stub).
+func vEventBytes(evt map[string]interface{}) []byte {
+	if !zzverif.Symbolic() {
+		b, err := json.Marshal(evt)
+		if err != nil {
+			panic(err)
+		}
+		return b
+	}
+	return []byte(`{"opaque":1}`)
+}
+
+func vWriteRef(evt map[string]interface{}, extra string) []byte {
+	want := ""
+	if s, ok := evt[LevelFieldName].(string); ok {
+		want += "L:" + s
+	}
+	if s, ok := evt[MessageFieldName].(string); ok {
+		if want != "" {
+			want += " "
+		}
+		want += "M:" + s
+	}
+	var names []string
+	for k := range evt {
+		if k != LevelFieldName && k != TimestampFieldName && k != MessageFieldName && k != CallerFieldName {
+			names = append(names, k)
+		}
+	}
+	for i := 1; i < len(names); i++ {
+		for j := i; j > 0 && names[j] < names[j-1]; j-- {
+			names[j], names[j-1] = names[j-1], names[j]
+		}
+	}
+	first := true
+	emit := func(k string) {
+		if want != "" {
+			want += " "
+		}
+		first = false
+		want += vRenderRef(k, evt[k])
+	}
+	for _, k := range names {
+		if k == ErrorFieldName {
+			emit(k)
+		}
+	}
+	for _, k := range names {
+		if k != ErrorFieldName {
+			emit(k)
+		}
+	}
+	_ = first
+	return []byte(want + extra + "\n")
+}
+
+func VH_C16_write() {
+	vSetOther()
+	mk := func(tag string) Formatter {
+		return func(i interface{}) string {
+			if s, ok := i.(string); ok {
+				return tag + ":" + s
+			}
+			return ""
+		}
+	}
+	out := &vWriter{}
+	w := vConsole()
+	w.Out = out
+	w.PartsOrder = []string{LevelFieldName, MessageFieldName}
+	w.FormatLevel, w.FormatMessage = mk("L"), mk("M")
+	extraFails := false
+	extra := ""
+	if zzverif.Choice(2) == 1 {
+		extra = " X"
+		w.FormatExtra = func(evt map[string]interface{}, b *bytes.Buffer) error {
+			b.WriteString(" X")
+			if extraFails {
+				return errV
+			}
+			return nil
+		}
+	}
+	mkEvt := func(msg string) map[string]interface{} {
+		evt := map[string]interface{}{}
+		if zzverif.Bool() {
+			evt[LevelFieldName] = "info"
+		}
+		if zzverif.Bool() {
+			evt[MessageFieldName] = msg
+		}
+		n := zzverif.Choice(zzverif.Param("wfields", 1) + 1)
+		for i := 0; i < n; i++ {
+			evt[vFieldName()] = vFieldValue()
+		}
+		return evt
+	}
+	// first call: succeeds, or fails in one of the ways Write can fail
+	e1 := map[string]interface{}{LevelFieldName: "warn", MessageFieldName: "one", "a": "v", "o": true}
+	p1 := vEventBytes(e1)
+	mode := zzverif.Choice(5)
+	switch mode {
+	case 0:
+		zzverif.DecodesTo(e1, nil)
+	case 1: // destination error
+		zzverif.DecodesTo(e1, nil)
+		out.retN, out.retErr = []int{0}, []error{errV}
+	case 2: // destination short write
+		zzverif.DecodesTo(e1, nil)
+		out.retN, out.retErr = []int{1}, []error{nil}
+	case 3: // FormatExtra error
+		zzverif.DecodesTo(e1, nil)
+		extraFails = w.FormatExtra != nil
+	case 4: // undecodable input
+		p1 = []byte("{")
+		zzverif.DecodesTo(nil, errV)
+	}
+	n1, err1 := w.Write(p1)
+	if mode == 0 || (mode == 3 && !extraFails) {
+		zzverif.Assert(err1 == nil && n1 == len(p1), "ConsoleWriter.Write succeeds and reports the full input length")
+		zzverif.Assert(len(out.calls) == 1 && zzverif.EqualBytes(out.calls[0].buf, vWriteRef(e1, extra)), "ConsoleWriter.Write writes one line: parts in PartsOrder, then the fields, then the extra, then a newline")
+	} else {
+		zzverif.Assert(err1 != nil, "a failing destination, FormatExtra or undecodable input is reported")
+	}
+	extraFails = false
+	// second call: a valid event is rendered on its own, whatever happened before
+	e2 := mkEvt("two")
+	p2 := vEventBytes(e2)
+	zzverif.DecodesTo(e2, nil)
+	before := len(out.calls)
+	n2, err2 := w.Write(p2)
+	zzverif.Assert(err2 == nil && n2 == len(p2), "ConsoleWriter.Write succeeds and reports the full input length (after an earlier call)")
+	zzverif.Assert(len(out.calls) == before+1, "one write to Out per event")
+	line2 := out.calls[len(out.calls)-1].buf
+	zzverif.Observe("line2", line2)
+	zzverif.Assert(zzverif.EqualBytes(line2, vWriteRef(e2, extra)), "ConsoleWriter.Write: the line holds this event only (nothing left over from an earlier Write)")
+	// the same event and configuration give the same bytes
+	zzverif.DecodesTo(e2, nil)
+	w.Write(p2)
+	zzverif.Assert(zzverif.EqualBytes(out.calls[len(out.calls)-1].buf, line2), "the same event and configuration always give the same bytes")
+	zzverif.Reach("C16/write")
 }
